@@ -1,8 +1,29 @@
 import OSProofs.Props.C19
 import OSProofs.Props.C19b
+import OSProofs.GenTie
 #print axioms OS.omegaDelta_btp_eq_btf
 #print axioms OS.compute_btp_eq_btf
 #print axioms OS.C19_btp_eq_btf_two
 #print axioms OS.C19_validateRate_kind_free
 #print axioms OS.C19_validatePredict_kind_free
 #print axioms OS.swapKind_isRatingOf
+#print axioms OS.Gen.ordinal_PL_eq
+#print axioms OS.Gen.lt_PL_eq
+#print axioms OS.Gen.eq_PL_eq
+#print axioms OS.Gen.gamma_PL_eq
+#print axioms OS.Gen.ordinal_BTF_eq
+#print axioms OS.Gen.lt_BTF_eq
+#print axioms OS.Gen.eq_BTF_eq
+#print axioms OS.Gen.gamma_BTF_eq
+#print axioms OS.Gen.ordinal_BTP_eq
+#print axioms OS.Gen.lt_BTP_eq
+#print axioms OS.Gen.eq_BTP_eq
+#print axioms OS.Gen.gamma_BTP_eq
+#print axioms OS.Gen.ordinal_TMF_eq
+#print axioms OS.Gen.lt_TMF_eq
+#print axioms OS.Gen.eq_TMF_eq
+#print axioms OS.Gen.gamma_TMF_eq
+#print axioms OS.Gen.ordinal_TMP_eq
+#print axioms OS.Gen.lt_TMP_eq
+#print axioms OS.Gen.eq_TMP_eq
+#print axioms OS.Gen.gamma_TMP_eq
